@@ -264,10 +264,15 @@ def attribute_rules(ctx, report):
                     for mbi, mt in mu.calls(r, r"^std::option::Option::<T>::map$"):
                         if mu.origin_local(r, rdefs, mu.op_local(mt["args"][0])) != vt["dest"]["l"] or mt["dest"]["p"]:
                             continue
+                        reach = mu.flow_forward(r, mt["dest"]["l"])          # through tuples / Some(..) / `?` of a helper inlined back
                         for sbi in sinks:
                             st_ = r.blocks[sbi]["term"]
-                            if any(mu.origin_local(r, rdefs, mu.op_local(a)) == mt["dest"]["l"] for a in st_["args"][1:] if mu.op_local(a) is not None):
-                                via_map = True
+                            for a in st_["args"][1:]:
+                                la = mu.op_local(a)
+                                if la is None:
+                                    continue
+                                if mu.origin_local(r, rdefs, la) == mt["dest"]["l"] or any(tl == la and not tp for (tl, tp) in reach):
+                                    via_map = True
                 if via_map:
                     report.nontriv("attribute reader: value presence carried by Option::map")
                     report.sample({"rule": "R4", "reader": r.qname, "presence": "second piece .map(decode) stored as is"})
@@ -380,6 +385,21 @@ def run(ctx):
                             loc = _value_loc(fr, defs, cap["pl"])
                             if loc is not None:
                                 roles[loc] = fname
+                    elif cur["p"]:
+                        # a field of a captured struct (`move |name| Info { name, ip_addresses: collected.ip_addresses, .. }`):
+                        # (closure local, path) -> the capture it was moved out of -> the operand of the closure aggregate
+                        cl = mu.resolve_loc(cb0, cdefs, cur)
+                        if cl is not None and cl[1]:
+                            d1 = mu.single_def(cdefs, cl[0])
+                            if d1 is not None and d1[1] != "term" and d1[2].get("k") == "use" and d1[2]["op"].get("o") in ("copy", "move"):
+                                cp = d1[2]["op"]["pl"]
+                                cfs = [p0["f"] for p0 in cp["p"] if isinstance(p0, dict) and "f" in p0]
+                                if cp["l"] == 1 and len(cfs) == 1 and cfs[0] < len(s0["rv"]["ops"]):
+                                    cap = s0["rv"]["ops"][cfs[0]]
+                                    if cap.get("o") in ("copy", "move"):
+                                        loc = _value_loc(fr, defs, cap["pl"])
+                                        if loc is not None:
+                                            roles[(loc[0], tuple(loc[1]) + tuple(cl[1]))] = fname
     if not names:
         names = fr.local_names()
     want = {"A": "ip_addresses", "AAAA": "ip_addresses", "SRV": "ports", "TXT": "attributes"}
